@@ -43,7 +43,7 @@ var Kinds = []string{
 	"unweld", "unref", "nullfaces", "flip", "smooth", "smoothweld", "flat", "laplacian", "laplacianaxis",
 	"scaleattr", "scalealongnormal", "translateattr", "rotateattr", "center", "normalize",
 	"filter1", "filter3", "crop", "split", "repeat", "slice", "vertexcolor",
-	"export-ply", "export-obj", "export-gltf", "export-stl", "scan",
+	"export-ply", "export-obj", "export-mtl", "export-gltf", "export-stl", "scan",
 }
 
 // Gen draws one operation.
@@ -197,6 +197,9 @@ func Apply(op Op, a, b modeling.Mesh) []modeling.Mesh {
 		if op.A%3 == 0 {
 			return one(a.SetMaterial(*gen.SpacedMaterials[op.B%2]))
 		}
+		if op.A%3 == 1 {
+			return one(a.SetMaterial(*gen.TexturedMaterial(op.B)))
+		}
 		return one(a.SetMaterial(*gen.MaterialPool[op.B%4]))
 	case "setmats":
 		var ms []modeling.MeshMaterial
@@ -206,6 +209,9 @@ func Apply(op Op, a, b modeling.Mesh) []modeling.Mesh {
 				mm.Material = gen.MaterialPool[op.X[i+1]%4]
 				if (op.A+i)%3 == 0 { // a shared pointer to a material whose name contains spaces
 					mm.Material = gen.SpacedMaterials[op.X[i+1]%2]
+				}
+				if (op.A+i)%3 == 1 { // colours and texture URIs (Windows separators, spaces)
+					mm.Material = gen.TexturedMaterial(op.X[i+1])
 				}
 			}
 			ms = append(ms, mm)
@@ -266,6 +272,9 @@ func Apply(op Op, a, b modeling.Mesh) []modeling.Mesh {
 		ply.Write(io.Discard, a, ply.BinaryBigEndian)
 	case "export-obj":
 		obj.WriteMesh(a, "", io.Discard)
+	case "export-mtl":
+		obj.WriteMaterialsFromMesh(a, io.Discard)
+		obj.WriteMaterials(b.Materials(), io.Discard)
 	case "export-gltf":
 		sc := gltf.PolyformScene{Models: []gltf.PolyformModel{{Name: "x", Mesh: &a}, {Name: "y", Mesh: &b}}}
 		gltf.WriteBinary(sc, io.Discard)
